@@ -124,6 +124,7 @@ def runNode (ws : List String) : String :=
   | ["stop", m, sc, p] => match p.toNat? with
     | some p => runNodeStop m sc p
     | none => "bad-case"
+  | ["earlygone", m] => runNodeEarly m 6 0   -- six cached events (two peers that came and went), nothing live
   | ["earlyburst", m, n] => match n.toNat? with
     -- Accepted, n numbered messages and six repetitive ones cached; ten messages and the Disconnected live
     | some n => if n ≤ 100000 then runNodeEarly m (n + 7) 11 else "bad-case"
